@@ -109,7 +109,7 @@ fn check_one_desc(rep: &Report, prop: Prop, c: &DescCase, thorough: bool, cen: &
     let dsx = c.d.sexpr();
     for w in &ws {
         let spend = make_spend(c.spk.clone(), w.locktime, w.sequence);
-        let sat = WorldSat { world: w, spend: &spend, sign: &c.sign, schnorr_all: false };
+        let sat = WorldSat { world: w, spend: &spend, sign: &c.sign, schnorr_all: false, lie_locks: false };
         for mall in [false, true] {
             bump(cen, "evaluations");
             let mode = if mall { "mall" } else { "nonmall" };
@@ -247,7 +247,7 @@ fn check_one_desc(rep: &Report, prop: Prop, c: &DescCase, thorough: bool, cen: &
                 };
                 let spend2 = make_spend(c.spk.clone(), lt, seq);
                 let w2 = World { sigs: w.sigs.clone(), pre: w.pre.clone(), locktime: lt, sequence: seq };
-                let sat2 = WorldSat { world: &w2, spend: &spend2, sign: &c.sign, schnorr_all: false };
+                let sat2 = WorldSat { world: &w2, spend: &spend2, sign: &c.sign, schnorr_all: false, lie_locks: false };
                 match guard(|| plan.satisfy(&sat2)) {
                     Ok(Ok((witness, script_sig))) => {
                         bump(cen, "plan_sat_ok");
@@ -509,7 +509,7 @@ fn frag_check<Ctx: Cx>(
             let tsx = t.sexpr();
             for w in worlds(&keys, &hl, &t.afters(), &t.olders(), thorough) {
                 let spend = make_spend(spk.clone(), w.locktime, w.sequence);
-                let sat = WorldSat { world: &w, spend: &spend, sign: &sign, schnorr_all: false };
+                let sat = WorldSat { world: &w, spend: &spend, sign: &sign, schnorr_all: false, lie_locks: false };
                 let public_only = w.sigs.is_empty() && w.pre.is_empty();
                 for mall in [false, true] {
                     bump(&mut cen, "frag_evaluations");
